@@ -33,16 +33,22 @@ pub enum Part {
     TwoFilters { sizes: Vec<u8>, l1: u8, l2: u8 },
     /// a process that ends with binaries still in its mailbox
     MailboxLeftover { sizes: Vec<u8>, take: u8 },
+    /// heap binaries reached only indirectly (inside a captured tuple / a captured closure / a
+    /// closure returned as a result) cross a process boundary
+    ClosureNested { a: u8, b: u8, form: u8 },
+    /// a select that lists a timeout or an awaited helper BEFORE a filtered receive, with heap
+    /// binaries in the mailbox (racy: invariants only), then drains the mailbox
+    PrioFilter { sizes: Vec<u8>, helper_work: u16, timeout: u8, want: u8, await_first: bool },
 }
 
 impl Part {
     /// Parts whose outcome may legitimately depend on the schedule (used only where the oracle
     /// does not compare results across schedules).
     pub fn racy(&self) -> bool {
-        matches!(self, Part::TwoFilters { .. })
+        matches!(self, Part::TwoFilters { .. } | Part::PrioFilter { .. })
     }
     pub fn heap_heavy(&self) -> bool {
-        matches!(self, Part::BinFork { .. } | Part::BinStream { .. } | Part::SpawnCaps { .. } | Part::AwaitTwiceBin { .. } | Part::FilterBin { .. } | Part::TwoFilters { .. } | Part::MailboxLeftover { .. })
+        matches!(self, Part::BinFork { .. } | Part::BinStream { .. } | Part::SpawnCaps { .. } | Part::AwaitTwiceBin { .. } | Part::FilterBin { .. } | Part::TwoFilters { .. } | Part::MailboxLeftover { .. } | Part::ClosureNested { .. } | Part::PrioFilter { .. })
     }
 }
 
@@ -75,6 +81,8 @@ pub fn heap_part() -> impl Strategy<Value = Part> {
         3 => (prop::collection::vec(0u8..8, 1..5), any::<u8>()).prop_map(|(sizes, pick)| Part::FilterBin { sizes, pick }),
         3 => (prop::collection::vec(0u8..6, 1..6), 0u8..6, 0u8..6).prop_map(|(sizes, l1, l2)| Part::TwoFilters { sizes, l1, l2 }),
         2 => (prop::collection::vec(0u8..8, 1..5), 0u8..3).prop_map(|(sizes, take)| Part::MailboxLeftover { sizes, take }),
+        3 => (0u8..12, 0u8..12, 0u8..4).prop_map(|(a, b, form)| Part::ClosureNested { a, b, form }),
+        3 => (prop::collection::vec(0u8..6, 1..5), prop_oneof![0u16..10, 10u16..200], 0u8..30, 0u8..6, any::<bool>()).prop_map(|(sizes, helper_work, timeout, want, await_first)| Part::PrioFilter { sizes, helper_work, timeout, want, await_first }),
         1 => (prop_oneof![0u16..40, 40u16..400], any::<bool>()).prop_map(|(work, twice)| Part::LateAwait { work, twice }),
     ]
 }
@@ -301,6 +309,55 @@ pub fn render(g: &GProg) -> Rendered {
                     lines.push(format!("{n} mkbin {}", v("ml")));
                 }
                 lines.push(format!("{} = !{}", v("r"), v("ml")));
+                results.push(v("r"));
+            }
+            Part::ClosureNested { a, b, form } => {
+                has_binaries = true;
+                lines.push(format!("{} = {a} mkbin", v("na")));
+                lines.push(format!("{} = {b} mkbin", v("nb")));
+                lines.push(format!("{} = P[x: {}, y: [{}]]", v("nt"), v("na"), v("nb")));
+                match form % 4 {
+                    0 => {
+                        // a spawned closure captures a tuple that holds the binaries
+                        lines.push(format!("{} = @#{{ [{}.x, {}.y] }}", v("np"), v("nt"), v("nt")));
+                        lines.push(format!("{} = !{}", v("r"), v("np")));
+                    }
+                    1 => {
+                        // a spawned closure captures a closure that captures the tuple
+                        lines.push(format!("{} = #{{ [{}.x, 7] }}", v("ng"), v("nt")));
+                        lines.push(format!("{} = @#{{ {} }}", v("np"), v("ng")));
+                        lines.push(format!("{} = !{}", v("r"), v("np")));
+                    }
+                    2 => {
+                        // the child's result is a closure over a tuple holding a binary; the parent calls it
+                        lines.push(format!("{} = {a} @#'int {{ =n, t2 = P[x: n mkbin], #{{ [t2.x, 8] }} }}", v("np")));
+                        lines.push(format!("{} = !{}", v("nh"), v("np")));
+                        lines.push(format!("{} = {}", v("r"), v("nh")));
+                    }
+                    _ => {
+                        // the tuple itself is the spawn argument of a closure that also captures it
+                        lines.push(format!("{} = {} @#P[x: 'bin, y: ['bin]] {{ [$.x, {}.y] }}", v("np"), v("nt"), v("nt")));
+                        lines.push(format!("{} = !{}", v("r"), v("np")));
+                    }
+                }
+                processes += 1;
+                results.push(v("r"));
+            }
+            Part::PrioFilter { sizes, helper_work, timeout, want, await_first } => {
+                has_binaries = true;
+                has_messages = true;
+                let first = if *await_first { "h".to_string() } else { format!("{timeout}") };
+                lines.push(format!(
+                    "{} = @#{{ h = {helper_work} @w, ! [{first}, #'bin {{ __binary_length__ ={} => Ok }}, 45] =m1, ! [{first}, #'bin {{ __binary_length__ ={} => Ok }}, 45] =m2, 0 drain }}",
+                    v("pf"),
+                    *want as usize + 2,
+                    *want as usize + 2
+                ));
+                processes += 2;
+                for n in sizes {
+                    lines.push(format!("{n} mkbin {}", v("pf")));
+                }
+                lines.push(format!("{} = !{}", v("r"), v("pf")));
                 results.push(v("r"));
             }
             Part::BinStream { chunks } => {
